@@ -858,7 +858,7 @@ def p_C16(ctx):
     return ctx.finish("model-driven fault enumeration: TLC enumerates all single faults (quick) / all fault pairs (thorough) of 5 components files and 2 factor files over 21 atoms, plus token soups; every text goes through every public library entry point under catch_unwind and through the real program (half of them in the quick tier), together with valid texts of every kind and numeric option atoms; oracle = terminal states of the specification (Ok / typed error; deliberate exit code with stderr); distinct_nontrivial = distinct corrupted files that reached another parser branch than their base file + distinct token soups")
 
 
-TEXT_ATOMS = {"<NT>": "ñ", "<EU>": "€"}
+TEXT_ATOMS = {"<NT>": "ñ", "<EU>": "€", "<C1>": "\x01", "<VT>": "\x0b"}
 
 
 def p_C17(ctx):
@@ -975,6 +975,26 @@ def p_C18(ctx):
                 c["meta"] = [["CTE_AREAREF", "12.5"], ["Nota", "texto libre"]]
             yield c
     ctx.replay(rt(stride(vlib.mc_cases(lat), 30 if ctx.quick else 3, ctx.seed % 30 if ctx.quick else 0), "comentario 1"), "lattice", "Trace_C18")
+    # free text: every string TLC enumerates over Output!TextAtoms (markup characters, '#', ':', ',', blanks, non-ASCII and
+    # control characters) as a component comment, a metadata value and a factor comment, written and read back
+    st17 = ctx.mc("MC_C17", "MC_C17_quick.cfg" if ctx.quick else "MC_C17_thorough.cfg")
+    latc = list(stride(vlib.mc_cases(lat), 150 if ctx.quick else 15, ctx.seed % 150 if ctx.quick else 0))
+    def strings():
+        k = 0
+        for c in vlib.mc_cases(st17):
+            txt = "".join(TEXT_ATOMS.get(a, a) for a in c["atoms"])
+            b = json.loads(json.dumps(latc[k % len(latc)]))
+            k += 1
+            b["src"]["comps"][0]["cm"] = txt
+            b["src"]["comps"][-1]["cm"] = txt + "x"
+            b["meta"] = [["CTE_NOTA", txt], ["Otra nota", "y" + txt]]
+            if b["fac"]["mode"] == "str":
+                b["fac"]["comment"] = txt
+            b["roundtrip"] = True
+            b["runs"] = runs
+            b["atoms"] = c["atoms"]
+            yield b
+    ctx.replay(strings(), "strings", "Trace_C18", keep=lambda c: {"atoms": c["atoms"], "src": c["src"], "fac": c["fac"]})
     ctx.replay(rt(file_cases(None, locs=("PENINSULA", "CANARIAS"))), "files", "Trace_C18")
     ctx.replay(rt(rnd(ctx, 150, 5000, None, aux=True)), "random", "Trace_C18")
     c06 = ctx.mc("MC_Comp", "MC_Comp_C06_thorough.cfg")
